@@ -585,10 +585,12 @@ func (w *World) execHeld(op Op) {
 	w.mq.Hold()
 	defer w.mq.Release()
 	if creq != nil {
-		w.execOne(*creq)
-	}
-	for i := 0; i < 200 && w.mq.Held() == 0; i++ {
-		time.Sleep(5 * time.Millisecond)
+		if c := w.client(creq.C); c != nil && c.Dialed && !c.Closed && !c.EOF {
+			w.execOne(*creq)
+			for i := 0; i < 200 && w.mq.Held() == 0; i++ {
+				time.Sleep(5 * time.Millisecond)
+			}
+		}
 	}
 	w.HeldWorkers += w.mq.Held()
 	done := make(chan struct{})
